@@ -74,6 +74,23 @@ NEEDS = {
     'S6-C15': "SphericalGrid3D wedge (front/back not periodic): the row builder divides the caller's front.a / back.a in place; a second call (or solve) sees the scaled coefficients",
     'S6-C16': "BoundaryFace constructed directly with a non-array that has a .shape (numpy scalar, sparse matrix, memoryview)",
     'S6-C17': "TVD term with some |dphi/dx| in (1e-16, 1e-8] in the working units (np.isclose default atol in _fsign)",
+    'S7-C01': "Grid3D, central convectionTerm, non-zero z velocity on interior z faces, non-uniform z spacing (back-face weight uses the front neighbour size)",
+    'S7-C02': "SphericalGrid1D, convectionUpwindTerm, negative radial velocity on the outer face (inflow) with Neumann / Robin data or no diffusion: the boundary correction reuses an already halved coefficient",
+    'S7-C03': "SphericalGrid3D with phi periodicity requested through a flag on exactly one of back/front (De Morgan slip in the ghost function only)",
+    'S7-C04': "solvePDE called with externalsolver=...: the final solve is routed through solveMatrixPDE without forwarding it",
+    'S7-C05': "CylindricalGrid3D, TVD right-hand side with a non-zero limiter, negative axial velocity on z faces of the last theta row",
+    'S7-C06': "SphericalGrid3D, central convectionTerm, non-uniform phi spacing, non-zero azimuthal velocity",
+    'S7-C07': "hollow SphericalGrid1D (inner radius > 0), upwind term, positive velocity on the inner boundary face (statement order slip in the boundary correction)",
+    'S7-C08': "Grid3D, TVD right-hand side, negative z velocity, data not locally linear along z (rZ_m copied from rZ_p)",
+    'S7-C09': "periodic switched off on a periodic face pair after the variable exists, no other edit, then solvePDE (same kind of slip as S5-C09)",
+    'S7-C10': "PolarGrid2D with a single theta cell spanning exactly 2*pi (np.mod of the sector angle)",
+    'S7-C11': "a Grid3D-derived mesh with non-uniform spacing along the third axis, linearMean(...).zvalue, data varying along z",
+    'S7-C12': "a list of equation terms containing a (matrix, vector) pair passed to solvePDE a second time (the list is extended in place)",
+    'S7-C13': "the VanLeer limiter at exactly r == -1.0 (rewritten as 2r/(1+r) behind an (r>0) mask)",
+    'S7-C14': "FaceVariable <= FaceVariable on a 3-D grid on z faces where both operands are exactly equal",
+    'S7-C15': "solveMatrixPDE with an exactly all-zero float RHS: the returned variable's storage is the caller's RHS buffer",
+    'S7-C16': "whole-attribute assignment fv.zvalue = arr on a SphericalGrid3D face variable (foreign label accepted by the setter only)",
+    'S7-C17': "SphericalGrid3D from face arrays with theta_min > 0, upwind term, positive theta velocity on the theta_min boundary faces",
     'S2-C16': "assigning FaceVariable.yvalue on CylindricalGrid2D / PolarGrid2D / 3-D curvilinear grids (subclasses of Grid2D/Grid3D) where the label is not documented",
 }
 
@@ -103,6 +120,18 @@ BEFORE = {
     'S5-C09': "no check reported it (C09.P1 only switched periodic on); P1 now also switches it off",
     'S5-C15': "no check reported it (C15 ran every builder on clean variables only); Z1 dirty-argument pass added",
     'S5-C16': "no check reported it (the flags were only inspected after normal returns); C16.L3 repeated-refusal scenario added",
+    'S6-C01': "no check reported it in the quick tier (single-flag periodic configurations of the theta axis were thorough-only); quick tier of C03 covers them for every axis now, C01.R5p added",
+    'S6-C02': "C02 exit 2 (sine of a position anchored at the opposite end: 'argument of sin does not tend to a coordinate'); expanded about that point now, reported by K3 (C01.R4, C05.E3, C06.U3, C07.M2 reported it before)",
+    'S6-C03': "exit 2 in C03/C07/C08/C16/C17 (isinstance with a tuple of classes in the dispatcher); type tests with tuples / `in` supported, dynamic dispatch fallback",
+    'S6-C04': "exit 2 in C04/C09 (staticmethod called through self); static / class methods modelled; reported by C09.P1 (array of another shape) and, through the lemma group, by C04",
+    'S6-C06': "reported by C04.S8 and C09.P1 only; C06 re-decides the protocol lemmas now",
+    'S6-C09': "no check reported it (no augmented assignment in the edit alphabet, and the interpreter's `obj.attr += v` did not run the setter); statement-level edits in C09.P1",
+    'S6-C11': "exit 2 in C05/C11 (np.allclose outside the subset); tolerance predicates fork the job, C11.WL reports the path `np.allclose(dx, dx[0]) is true`",
+    'S6-C12': "as S6-C06 (same change): reported by C04.S8 / C09.P1 only; C12 re-decides the protocol lemmas now",
+    'S6-C16': "no check reported it (L6 probed floats, a list and None only); array-like non-arrays (numpy scalars, sparse matrices, memoryviews) probed now",
+    'S6-C17': "C17 exit 0: the rewritten _fsign tripped the H4 walk, but under the one construct of the listed known finding, which swallowed it (C13.F8 reported a false 'not analysable' violation); H4 reports one construct per threshold, F8 analyses the inlined body",
+    'S7-C12': "C04.S2 misfired and C15 was silent: python list semantics were not modelled (`lst += [..]` rebinding instead of extending, no growth during iteration); modelled, and C04.S1 / C15.Z2 require the caller's term list to be unchanged",
+    'S7-C15': "exit 2 (np.any over symbolic data); quantified predicates fork the job: effect / alias rules stay definite on the outcome that pins the data, value rules are undetermined there",
     'S-C04': "C04 silent in round 1 (caught by C09 only); C04.S8 added",
     'S-C15': "C05 exit 2 in round 1 (case-split budget); recursive case split",
 }
@@ -124,7 +153,7 @@ def main():
         meta = {
             'id': d,
             'breaks_property': prop,
-            'origin': 'independent sub-agent given only the property text and a scratch worktree' + (' (second round)' if d.startswith('S2') else ' (third round)' if d.startswith('S3') else ' (fourth round)' if d.startswith('S4') else ''),
+            'origin': 'independent sub-agent given only the property text and a scratch worktree' + (' (second round)' if d.startswith('S2') else ' (third round)' if d.startswith('S3') else ' (fourth round)' if d.startswith('S4') else ' (fifth round)' if d.startswith('S5') else ' (sixth round)' if d.startswith('S6') else ' (seventh round, with a focus area per property)' if d.startswith('S7') else ''),
             'files_changed': files,
             'needs_to_manifest': NEEDS.get(d) or old.get('needs_to_manifest', ''),
             'confirmed_by_me': {
@@ -134,7 +163,7 @@ def main():
                 'demo_exit_without_change': ver.get('demo_without_change_exit'),
                 'confirmed': ver.get('confirmed'),
             },
-            'checks_run': 'tools/try_seed.py checks: git -C /repo apply patch.diff; every ./check CNN --tier quick; git -C /repo checkout -- .',
+            'checks_run': ('tools/try_patch.py: scratch copy of /repo/src + docs with patch.diff applied, PV_REPO pointed at it, every ./check CNN --tier quick' if d[:2] in ('S6', 'S7') else 'tools/try_seed.py checks: git -C /repo apply patch.diff; every ./check CNN --tier quick; git -C /repo checkout -- .'),
             'caught_by': caught,
             'analysis_errors': {k: r['errors'][:1] for k, r in sorted(chk.items()) if r['exit'] == 2},
             'silent': [k for k, r in sorted(chk.items()) if r['exit'] == 0],
